@@ -20,8 +20,8 @@ TRUSTED = [
     "proved for the model: every table entry vs the calendar; masks = dates for every year; start/until/count/whole seconds and strict "
     "monotonicity for ALL rules and all seven frequencies; period day sets and advance of the calendar frequencies; the BY filter in calendar "
     "terms; iter = Spec.occ for DAILY/WEEKLY/MONTHLY/YEARLY with BYMONTH/BYMONTHDAY/BYYEARDAY/plain BYDAY/BYHOUR/BYMINUTE/BYSECOND, BYSETPOS "
-    "(WEEKLY only with the start on the week start), MONTHLY / YEARLY nth weekdays, defaults, COUNT, UNTIL; every yielded value a valid datetime.  NOT proved (covered by correspondence + oracle only): exactness for HOURLY/MINUTELY/SECONDLY, "
-    "BYWEEKNO, BYEASTER, nth BYDAY mixed with BYMONTHDAY",
+    "(WEEKLY only with the start on the week start), MONTHLY / YEARLY nth weekdays, YEARLY BYEASTER (-80..250, 1583..4099), defaults, COUNT, UNTIL; every yielded value a valid datetime.  NOT proved (covered by correspondence + oracle only): exactness for HOURLY/MINUTELY/SECONDLY, "
+    "BYWEEKNO, BYEASTER outside YEARLY, nth BYDAY / BYEASTER mixed with BYMONTHDAY or plain BYDAY",
 ]
 ASSUMPTIONS = [
     "aware starts: the model carries tzinfo as an opaque tag; `until` is compared in the frame of dtstart.tzinfo "
